@@ -408,7 +408,12 @@ class Check:
               "coverage": cov, "assumptions": self.assumptions, "wall_s": round(time.time() - self.t0, 2),
               "violations": len(self.violations)}
         if write_evidence:       # a --replay run re-executes one recorded input; it must not replace the run's evidence
-            json.dump(ev, open(os.path.join(VERIF, "evidence", self.pid + ".json"), "w"), indent=1, default=str)
+            # evidence/<id>.json describes runs against /repo itself; a run against another tree (VERIF_REPO: mutants, seeded changes)
+            # keeps its record apart
+            foreign = os.path.realpath(REPO) != os.path.realpath("/repo")
+            sub = os.path.join(VERIF, "evidence", ".other-tree") if foreign else os.path.join(VERIF, "evidence")
+            os.makedirs(sub, exist_ok=True)
+            json.dump(ev, open(os.path.join(sub, self.pid + ".json"), "w"), indent=1, default=str)
         for l in lines:
             print(l)
         self.log("done: obligations %d/%d, correspondences %d (%d disagree), evaluations %d, violations %d, known %d" % (
